@@ -221,7 +221,7 @@ def locate(pm: Any, m: Any, pl: str) -> Tuple[Any, Any]:
 
 def compare_name(pl: str, pns: Any, dns: Any, name: str, label: str, full: str, docexp: Optional[str], res: Dict[str, Any], extra_sig: str = '') -> None:
     from pydoctor import model
-    case = {'kind': 'src', 'src': full, 'place': pl, 'names': [name]}
+    case = {'kind': 'src', 'src': full, 'place': pl, 'names': [name], 'label': label, 'sfx': extra_sig}
     pk = pykind(pns, name) if pl not in NEGATIVE and pl not in UNJUDGED else None
     if pl in UNJUDGED:
         return      # bodies the agreed subset does not cover: neither demanded nor forbidden
@@ -630,8 +630,8 @@ def replay(case: Dict[str, Any]) -> List[Dict[str, Any]]:
     res = core.result()
     if case['kind'] == 'src':
         # re-derive labels is not needed for a replay: compare every planted-looking name
-        names = [(n, 'replay', None) for n in case['names']]
-        run_sources([(case['place'], case['src'], names, '')], res)
+        names = [(n, case.get('label', 'replay'), None) for n in case['names']]
+        run_sources([(case['place'], case['src'], names, case.get('sfx', ''))], res)
     elif case['kind'] == 'literal':
         check_literal(case['lit'], case['place'], res, case.get('rebind'), case.get('how') or '')
     return res['violations']
